@@ -237,10 +237,10 @@ type ProfileCfg struct {
 	Exts      []Ext              `json:"exts,omitempty"`
 }
 
-func B(v bool) *bool       { return &v }
-func I(v int) *int         { return &v }
-func I64(v int64) *int64   { return &v }
-func S(v string) *string   { return &v }
+func B(v bool) *bool             { return &v }
+func I(v int) *int               { return &v }
+func I64(v int64) *int64         { return &v }
+func S(v string) *string         { return &v }
 func Strs(v ...string) *[]string { return &v }
 
 func rawNode(r *Raw) any { return r.Text() }
